@@ -1,4 +1,5 @@
 import Adlt.Buf.Inv
+import Adlt.Dlt.Window
 /-! # C04 — parsing depends only on the bytes, not on read chunking or position (reader part)
 
 Model: `Lmk.LM` (= `LowMarkBufReader` over a source with an arbitrary short-read schedule). `orig` is the
@@ -37,6 +38,25 @@ theorem C04_seek_within_buffer (orig : List Nat) (s : LM) (n : Nat) (hi : Inv or
     else (s.seekStart n).2.absPos + (s.seekStart n).2.pos = s.absPos + s.pos :=
   (seekStart_spec orig s n hi).2
 
-theorem C04_consts : Gen.cacheLineSize = 4096 := by decide
+/-- **window lemma** (why chunking cannot matter): on any window that holds at least a minimal message, the message its
+    length field announces, and the four look-ahead bytes of the corruption heuristic, the storage parser answers - message,
+    bytes consumed, or which error - exactly as on the whole remaining input -/
+theorem C04_parse_window (i : Nat) (w rest : Dp.Bytes) (h20 : 20 ≤ w.length) (hl : 16 + Dp.lenOf w + 4 ≤ w.length) :
+    Dp.parseStorage i (w ++ rest) = Dp.parseStorage i w := Dp.parse_window i w rest h20 hl
+
+/-- hence a window of `DLT_MIN_PARSE_BUFFER_SIZE` = 16 + 65535 + look-ahead bytes - the low mark `convert` and `remote`
+    hand to the reader since fix f61142c - always suffices, whatever the length field says -/
+theorem C04_min_buffer_suffices (i : Nat) (w rest : Dp.Bytes) (h : 16 + 65535 + Gen.dltParseLookAhead ≤ w.length) :
+    Dp.parseStorage i (w ++ rest) = Dp.parseStorage i w := by
+  have hla : Gen.dltParseLookAhead = 4 := by decide
+  have hlen : Dp.lenOf w ≤ 65535 := by
+    unfold Dp.lenOf
+    split
+    · rename_i l1 l2 _ _
+      have := l1.toNat_lt; have := l2.toNat_lt; omega
+    · omega
+  exact Dp.parse_window i w rest (by omega) (by omega)
+
+theorem C04_consts : Gen.cacheLineSize = 4096 ∧ Gen.dltParseLookAhead = 4 := by decide
 
 end Props
